@@ -14,7 +14,7 @@ RULE = (
     'G-load triples of CSV texts: 3-400 rainfall rows on steps 600/900/1200/1800/3600 s, water level on the same or '
     'a different step (300-3600 s), aligned or offset by a fraction of a step, starting / ending before, with or '
     'after the rainfall record, 0-4 gaps anywhere (also before the first and after the last grid instant, gaps '
-    'shorter than a grid step, isolated samples), ET record wider than the span, rows shuffled, BOM (CLI); zones UTC '
+    'shorter than a grid step, isolated samples), ET record wider than the span, rows shuffled, BOM (CLI), CRLF line ends, no final newline, numbers in exponent / integer / space-padded form; zones UTC '
     'and fixed offsets.  Loaded by the real load_data (function) and `spowtd load` (CLI).  Walker recomputes from the '
     'generated rows, with own timestamp arithmetic and bisect: grid instants, rainfall / ET rows, interpolated water '
     'levels (1e-12 relative), absence of values and labels strictly inside source gaps, distinct labels per stretch.  '
@@ -38,6 +38,8 @@ REQUIRED = {
         'cases-with-gap': 500,
         'loads-via-cli-with-bom': 10,
         'cases-fixed-offset-zone': 100,
+        'cases-with-crlf-line-ends': 100,
+        'cases-with-other-number-formats': 100,
         'cases-before-or-straddling-1970': 100,
         'gaps-without-a-grid-instant-inside': 50,
     }
@@ -85,12 +87,31 @@ def gen(rng):
             flags['shuffled'] = True
     zone = rng.choice(['UTC', 'UTC', 'Etc/GMT-7', 'Etc/GMT+3', 'Etc/GMT-12'])
     return {'kind': 'load', 'rstep': rstep, 'zstep': zstep, 'rain': rain, 'et': et, 'z': z, 'tz': zone, 'flags': flags,
-            'origin': rng.randrange(len(ORIGINS))}
+            'origin': rng.randrange(len(ORIGINS)),
+            'fmt': {'eol': rng.choice(['\n', '\n', '\r\n']), 'final_newline': rng.random() < 0.8,
+                    'numbers': rng.choice(['repr', 'repr', 'exponent', 'integer-when-whole', 'trailing-space'])}}
 
 
-def text_of(rows, header='Datetime,value', t0=None):
+def _number_text(v, style):
+    if style == 'exponent':
+        return '{:.17e}'.format(v)
+    if style == 'integer-when-whole' and float(v).is_integer():
+        return str(int(v))
+    if style == 'trailing-space':
+        return repr(v) + ' '
+    return repr(v)
+
+
+def text_of(rows, header='Datetime,value', t0=None, fmt=None):
+    """CSV text; fmt: line end ('\\n' / '\\r\\n'), final newline or not, number style --
+    all variants that the loader accepts as the same data"""
     t0 = t0 or T0
-    return header + '\n' + ''.join('{},{!r}\n'.format((t0 + datetime.timedelta(seconds=t)).strftime(data.FMT), v) for t, v in rows)
+    fmt = fmt or {}
+    eol = fmt.get('eol', '\n')
+    style = fmt.get('numbers', 'repr')
+    lines = [header] + ['{},{}'.format((t0 + datetime.timedelta(seconds=t)).strftime(data.FMT), _number_text(v, style)) for t, v in rows]
+    text = eol.join(lines)
+    return text + (eol if fmt.get('final_newline', True) else '')
 
 
 def to_epoch(sec, zone, t0=None):
@@ -105,13 +126,18 @@ def check_case(ctx, case, via='function', index=0):
     rec.case()
     zone = case['tz']
     t0 = ORIGINS[case.get('origin', 0)]
-    p, e, z = text_of(case['rain'], t0=t0), text_of(case['et'], t0=t0), text_of(case['z'], t0=t0)
+    fmt = case.get('fmt')
+    p, e, z = text_of(case['rain'], t0=t0, fmt=fmt), text_of(case['et'], t0=t0, fmt=fmt), text_of(case['z'], t0=t0, fmt=fmt)
+    if fmt and fmt.get('eol') == '\r\n':
+        rec.hit('cases-with-crlf-line-ends')
+    if fmt and fmt.get('numbers') != 'repr':
+        rec.hit('cases-with-other-number-formats')
     if t0.year < 1971:
         rec.hit('cases-before-or-straddling-1970')
     if via == 'function':
         connection = sqlite3.connect(':memory:')
         try:
-            load_mod.load_data(connection, io.StringIO(p), io.StringIO(e), io.StringIO(z), zone)
+            load_mod.load_data(connection, io.StringIO(p, newline=''), io.StringIO(e, newline=''), io.StringIO(z, newline=''), zone)
             exc = None
         except Exception as err:  # pylint: disable=broad-except
             exc = err
@@ -119,7 +145,7 @@ def check_case(ctx, case, via='function', index=0):
         paths = []
         for name, text in (('p', p), ('e', e), ('z', z)):
             path = os.path.join(ctx.workdir, 'l{}_{}.txt'.format(index, name))
-            with open(path, 'w', encoding='utf-8-sig' if index % 2 == 0 else 'utf-8') as f:
+            with open(path, 'w', encoding='utf-8-sig' if index % 2 == 0 else 'utf-8', newline='') as f:
                 f.write(text)
             paths.append(path)
         db = os.path.join(ctx.workdir, 'l{}.sqlite3'.format(index))
